@@ -53,7 +53,8 @@ def natural_missing(st, x):
     out = []
     if not st.holds(("type", x, NUM)):
         out.append("is a number")
-    if not st.holds(("integral", x)):
+    if not st.holds(("integral", x)) and not st.holds(("type", x, frozenset(["int", "bool"]))):
+        # (a value whose type is int or bool is integral as it stands)
         out.append("int(x) == x")
     want = frozenset({(x, -1)})
     if not any(co == want and c >= 1 for _f, (co, c) in le_facts(st.closure())):
@@ -68,7 +69,11 @@ def natural_refuted(facts, x):
             return True
         if f[0] == "ne" and {f[1], f[2]} == {ix, x}:
             return True
-        if f[0] in ("nottype", "type") and f[1] == x:
+        # turned away for its type: justified only when the value is no number at all (2.0, True
+        # and 3 are all in the grammar: "not an int" alone does not put a value outside it)
+        if f[0] == "nottype" and f[1] == x and NUM <= f[2]:
+            return True
+        if f[0] == "type" and f[1] == x and not (f[2] & NUM):
             return True
     want = frozenset({(x, 1)})  # x + c <= 0 with c >= 0  <=>  x <= -c  => x < 1
     return any(co == want and c >= 0 for _f, (co, c) in le_facts(facts))
